@@ -99,7 +99,7 @@ _CLASS_CACHE = {}
 
 
 def build_class(prog):
-    key = repr(sorted(prog['fns'].items())) + prog['kind']
+    key = repr(sorted(prog['fns'].items())) + prog['kind'] + prog.get('via', '')
     if key in _CLASS_CACHE:
         return _CLASS_CACHE[key]
     ns = {}
@@ -110,12 +110,16 @@ def build_class(prog):
         cls = type('GenProc', (plumpy.Process,), ns)
     else:
         n = len(prog['fns'])
+        via_call = prog.get('via') == 'call'
 
         def mk(i, oc):
             def step(self):
                 ctxsnap = {int(k[1:]): v for k, v in self.ctx.__dict__.items() if k.startswith('k')}
                 self._trace.append((i, (), (), bool(self.paused), self.status, ctxsnap, [f.done() for f in self._futs]))
                 if oc[0] == 'waiton' and oc[2]:
+                    if via_call and i % 2 == 0:
+                        self.to_context(**{f'k{k}': self._futs[f] for f, k in oc[2]})     # the other way of registering
+                        return None
                     return plumpy.ToContext(**{f'k{k}': self._futs[f] for f, k in oc[2]})
                 if oc[0] == 'raise':
                     raise UserExc(oc[1])
@@ -159,6 +163,7 @@ CORPUS = collections.OrderedDict([
     ('KillCmd', {'kind': 'proc', 'nfut': 0, 'fns': {0: (1, ('cont', 1, [], {})), 1: (0, ('kill',))}}),
     ('WaitWait', {'kind': 'proc', 'nfut': 0, 'fns': {0: (0, ('wait', 1)), 1: (1, ('wait', 2)), 2: (0, ('stop', None, True))}}),
     ('Chain2', chain_prog([[(0, 0), (1, 1)], [(2, 0)], []], 3)),
+    ('ChainCall', dict(chain_prog([[(0, 0)], [(1, 0), (2, 1)], []], 3), via='call')),
     ('FailSync', {'kind': 'proc', 'nfut': 0, 'fns': {0: (0, ('cont', 1, [], {})), 1: (0, ('raise', 1))}}),
 ])
 
@@ -174,7 +179,10 @@ def random_prog(rng):
             keys = rng.sample(range(3), k)      # distinct keys: ToContext(**kw) cannot carry a key twice
             steps.append(list(zip(futs, keys)))
         steps.append([])
-        return chain_prog(steps, nfut)
+        prog = chain_prog(steps, nfut)
+        if rng.random() < 0.4:
+            prog['via'] = 'call'
+        return prog
     n = rng.randint(1, 4)
     fns = {}
     for i in range(n):
@@ -331,6 +339,8 @@ class Run:
                 if not f.done():
                     if toks[2] == 'ok':
                         f.set_result(int(toks[3]))
+                    elif toks[2] == 'killed':
+                        f.set_exception(plumpy.KilledError('child was killed'))
                     else:
                         f.set_exception(UserExc(int(toks[3])))
                 r = None
@@ -481,6 +491,9 @@ def ops_for(prog, alphabet):
         elif o == 'completeexc':
             for f in range(prog.get('nfut', 0)):
                 ops.append(f'complete {f} exc {3 + f}')
+        elif o == 'completekilled':
+            for f in range(prog.get('nfut', 0)):
+                ops.append(f'complete {f} killed')
         else:
             ops.append(o)
     return ops
@@ -578,6 +591,6 @@ def fix_case(case):
         else:
             oc = tuple(oc)
         fns[int(k)] = (aw, oc)
-    prog = dict(kind=prog['kind'], nfut=prog.get('nfut', 0), fns=fns)
+    prog = dict(kind=prog['kind'], nfut=prog.get('nfut', 0), fns=fns, **({'via': prog['via']} if prog.get('via') else {}))
     sched = collections.OrderedDict((int(k), v) for k, v in sorted(case['schedule'].items(), key=lambda kv: int(kv[0])))
     return prog, sched
